@@ -1,8 +1,8 @@
 (* C12 — services and routes can change while requests are being served.
    (partial: the lock / access table comes from the translator; Go's memory model and the
    sync.RWMutex implementation are assumed; the behavioural half rests on the stress run) *)
-From Model Require Import Conc.
-From Proofs Require Import ConcProofs.
+From Model Require Import Str Sexp Http Template Table Curly DetectRoute Jsr311 Router Conc.
+From Proofs Require Import ConcProofs FrameProofs.
 From Coq Require Import List String. Import ListNotations.
 Open Scope string_scope.
 
@@ -31,6 +31,29 @@ Definition C12_no_deadlock_statement : Prop :=
 Theorem C12_no_deadlock : C12_no_deadlock_statement.
 Proof. exact lockset_no_deadlock. Qed.
 Print Assumptions C12_no_deadlock.
+
+(* Frame: requests to services that are not being changed are answered as if no change were happening.
+   For both routers: two registration states with the same roots in the same order whose services are identical
+   except those marked [touched] give the same routing answer to every request whose URL is claimed by an
+   untouched service — whatever was added to or removed from the touched ones. (Route selection reads the service
+   list once, under the container's read lock, and the routes of the claiming service once, under its routes
+   lock: the answer is that of the state in which those reads happened.) *)
+Definition C12_frame_statement : Prop :=
+  forall (O : oracles) (touched : str -> bool) (t t' : table) (req : request),
+    t_router t = t_router t' ->
+    Forall2 (untouched_same touched) (t_services t) (t_services t') ->
+    (forall w, match t_router t with
+               | Curly => detect_web_service O (tokenize (rq_path req)) (t_services t) = Some w
+               | Jsr311 => exists fin, detect_dispatcher O (rq_path req) (t_services t) = Some (w, fin)
+               end -> touched (s_root w) = false) ->
+    select_route O t req = select_route O t' req.
+Theorem C12_frame : C12_frame_statement.
+Proof.
+  intros O touched t t' req Hr Hf Hu. destruct (t_router t) eqn:E.
+  - apply (curly_frame O touched); auto.
+  - apply (jsr_frame O touched); auto. intros w fin H. apply Hu. eauto.
+Qed.
+Print Assumptions C12_frame.
 
 (* the check is not vacuous, and it rejects an unguarded read *)
 Example C12_example :
